@@ -92,6 +92,30 @@ def main():
         if k.get('status') == 'undecided':
             undecided.append(k)
 
+    # lost anchor in a contracted function: the proof text no longer fits the changed body.  That alone is
+    # "undecided"; but if a Kani twin of that function finds a concrete failing input, it is a violation.
+    still_undecided = []
+    for r in undecided:
+        m = re.search(r'lost-anchor: (?:impl (\S+) :: )?fn (\w+):', r.get('reason') or '')
+        found = None
+        if m:
+            fname = ('%s::%s' % (m.group(1), m.group(2))) if m.group(1) else m.group(2)
+            try:
+                import kanirun
+                cex = kanirun.counterexample_for({'function': fname})
+            except Exception as e:
+                cex = {'found': False, 'note': str(e)}
+            if cex.get('found'):
+                found = {'obligation': 'kani-twin/%s (proof anchors of this function were lost)' % fname,
+                         'function': fname, 'kind': 'kani-twin', 'props': [pid], 'where': [],
+                         'message': 'bounded twin %s fails' % cex.get('harness'),
+                         'rendered': (r.get('reason') or '') + '\n' + (cex.get('native_output') or '')[-1500:],
+                         'counterexample': cex}
+        if found:
+            failures.append(found)
+        else:
+            still_undecided.append(r)
+    undecided = still_undecided
     known = [k for k in load_known() if k['property'] == pid and k.get('status', 'known') == 'known']
     violations = []
     known_hits = []
